@@ -1,9 +1,12 @@
-"""C01 deductive tier: the -inf-aware subtraction used for the reverse message (pointwise extended reals) and the
-normalisation of variable elimination; exactness of belief propagation itself is decided by the bounded tier."""
+"""C01 deductive tier: the -inf-aware subtraction used for the reverse message (pointwise extended reals) and the final
+normalisation of belief propagation under the calibration lemma (L-cal, assumed: it is the sum-product theorem the bounded tier
+decides on explicit joints); exactness of belief propagation itself is decided by the bounded tier."""
 from .. import deductive
 from ..contracts import extsub as K
-from . import normal_ded
+from ..contracts import normal as N
 
 
 def run(tier):
-    return [deductive.verify_function(K.REL, 'Factor.__sub__', K.SUB, hooks=K.CellHooks(), module_env=K.module_env())]
+    rel, q, c = N.BP_ITEM
+    return [deductive.verify_function(K.REL, 'Factor.__sub__', K.SUB, hooks=K.CellHooks(), module_env=K.module_env()),
+            deductive.verify_function(rel, q, c, hooks=N.BPHooks(), module_env={'Z_calibrated': N.E.Num(N.z3.Real('Z_calibrated'))})]
